@@ -15,9 +15,11 @@ MAX_REPORT = 12
 
 def jkey(x):
     try:
-        return json.dumps(x, sort_keys=True, default=repr)
+        s = json.dumps(x, sort_keys=True, default=repr)
     except Exception:
-        return repr(x)
+        s = repr(x)
+    import re
+    return re.sub(r"\d{40,}", lambda m: f"{m.group(0)[:6]}..({len(m.group(0))} digits)", s)
 
 
 class Acc:
